@@ -245,3 +245,25 @@ Proof.
   pose proof (N.max_spec (l_processed l + 1) (l_marker l + 1)) as Hm. fold fna in Hm. clearbody fna.
   split; lia.
 Qed.
+
+(* ---- log queries ---- *)
+(* a log query answers with committed entries only: the range [low, min(high, committed+1)) of
+   the log, or ErrCompacted, and reports first index and committed+1 *)
+Theorem log_query_committed_only_proved r m fi la err ents :
+  r_log_query r = None ->
+  r_log_query (handle_log_query r m) = Some (fi, la, err, ents) ->
+  fi = log_first (r_log r) /\ la = l_committed (r_log r) + 1 /\
+  (err = true -> ents = []) /\
+  (err = false -> ents = [] \/
+     (log_first (r_log r) <= m_from m <= l_committed (r_log r) /\
+      ents = log_entries_range (r_log r) (m_from m) (N.min (m_to m) (l_committed (r_log r) + 1)))).
+Proof.
+  intros Hn. unfold handle_log_query. rewrite Hn. cbv zeta.
+  destruct ((m_from m <? log_first (r_log r)) || (l_committed (r_log r) <? m_from m)) eqn:E1;
+    [|destruct (m_from m =? N.min (m_to m) (l_committed (r_log r) + 1)) eqn:E2;
+      [|destruct (N.min (m_to m) (l_committed (r_log r) + 1) <? m_from m) eqn:E3;
+        [unfold panic; cbn [r_log_query set]; rewrite Hn; discriminate|destruct (_ && _) eqn:E4]]];
+    cbn [r_log_query set]; intros H; injection H as <- <- <- <-; repeat split; try reflexivity;
+    intros He; try discriminate; try solve [left; reflexivity].
+  right. split; [lia|reflexivity].
+Qed.
